@@ -186,7 +186,8 @@ def _result_case(draw, tier):
                 empty_at=draw(st.one_of(st.none(), st.none(),
                                         st.integers(0, 12))),
                 empty_order=draw(st.integers(0, 12)),
-                create_first=draw(st.booleans()))
+                create_first=draw(st.booleans()),
+                np_obs=draw(st.sampled_from([False, False, True])))
 
 
 _NAMES = ["ber", "Alpha", "ser", "zeta", "count", "B2"]
@@ -224,7 +225,9 @@ def _sets_case(draw, tier):
             from_empty=[draw(st.booleans()) for _ in sizes]))
     late = draw(st.lists(_rep_strategy(specs), min_size=0, max_size=2))
     return dict(part="sets", results=specs, variations=variations,
-                late_reps=late)
+                late_reps=late, name_order_varies=draw(st.booleans()),
+                append_grouped=draw(st.booleans()),
+                np_obs=draw(st.sampled_from([False, False, True])))
 
 
 _PNAMES = ["snr", "alpha", "Zeta", "p"]
@@ -303,7 +306,9 @@ def _combine_case(draw, tier):
         st.booleans(), min_size=3, max_size=3)))
     return dict(part="combine", results=specs, unpacked=unpacked,
                 fixed=fixed, a_obs=a_obs, b_obs=b_obs, c_obs=c_obs,
-                third=third, acc_sides=acc_sides)
+                third=third, acc_sides=acc_sides,
+                name_order_varies=draw(st.booleans()),
+                np_obs=draw(st.sampled_from([False, False, True])))
 
 
 @st.composite
@@ -401,6 +406,20 @@ def _plain(x):
     return [type(x).__name__, repr(x)]
 
 
+def _num(x):
+    return isinstance(x, (int, float, np.integer, np.floating)) and \
+        not isinstance(x, (bool, np.bool_))
+
+
+def _same_obs(a, b):
+    """a stored observation equals the one handed over: strictly (type and
+    repr) - except that observations handed over as numpy scalars may be
+    stored as such or as the Python number of the same value"""
+    if _NP_OBS[0] and _num(a) and _num(b):
+        return bool(a == b)
+    return _plain(a) == _plain(b)
+
+
 def _snap(r):
     """my own field-by-field image of a Result (strict: type and repr)"""
     d = r.to_dict()
@@ -433,7 +452,9 @@ def _check_result(ctx, r, ref, exact, acc, stage, tags, single=None):
     pre = stage + ": "
     if typ == "MISC":
         got = r.get_result()
-        if ref.n and (type(got) is not type(ref.value) or got != ref.value):
+        if ref.n and not _same_obs(got, ref.value) and (
+                _NP_OBS[0] or type(got) is not type(ref.value) or
+                got != ref.value):
             raise Violation("misc_last_wins", pre + "value %r, last "
                             "observation %r" % (got, ref.value), tags)
         if acc:
@@ -441,7 +462,8 @@ def _check_result(ctx, r, ref, exact, acc, stage, tags, single=None):
             # the observations were grouped
             want_v = [v for v, _ in ref.obs]
             got_l = r.to_dict()["value_list"]
-            if [_plain(x) for x in got_l] != [_plain(x) for x in want_v]:
+            if len(got_l) != len(want_v) or not all(
+                    _same_obs(x, y) for x, y in zip(got_l, want_v)):
                 raise Violation("value_list", pre + "accumulated values %r, "
                                 "observations %r" % (got_l, want_v), tags)
         return
@@ -505,11 +527,13 @@ def _check_result(ctx, r, ref, exact, acc, stage, tags, single=None):
     if acc:
         want_v = [v for v, _ in ref.obs]
         want_t = [t for _, t in ref.obs] if typ == "RATIO" else []
-        if [_plain(x) for x in d["value_list"]] != [_plain(x) for x in want_v]:
+        if len(d["value_list"]) != len(want_v) or not all(
+                _same_obs(x, y) for x, y in zip(d["value_list"], want_v)):
             raise Violation("value_list", pre + "accumulated values %r, "
                             "observations %r" % (d["value_list"], want_v),
                             tags)
-        if [_plain(x) for x in d["total_list"]] != [_plain(x) for x in want_t]:
+        if len(d["total_list"]) != len(want_t) or not all(
+                _same_obs(x, y) for x, y in zip(d["total_list"], want_t)):
             raise Violation("total_list", pre + "accumulated totals %r, "
                             "observations %r" % (d["total_list"], want_t),
                             tags)
@@ -522,6 +546,18 @@ def _new_result(Result, name, spec_type, acc, choice_num, obs, use_create):
     """Result holding the observations obs (list of [value, total])."""
     code = getattr(Result, spec_type + "TYPE")
     start = 0
+    if _NP_OBS[0]:
+        # the observations as numpy scalars (what a simulation that counts
+        # with numpy hands over): same values, other number types
+        def conv(x, j):
+            if isinstance(x, bool) or not isinstance(x, (int, float)):
+                return x
+            if isinstance(x, int):
+                if spec_type == "CHOICE":
+                    return [np.int64, np.uint8, np.int16, np.int32][j % 4](x)
+                return np.int64(x) if abs(x) < 2 ** 62 else x
+            return np.float64(x)
+        obs = [[conv(v, j), conv(t, j)] for j, (v, t) in enumerate(obs)]
     if use_create and obs:
         v, t = obs[0]
         if spec_type == "CHOICE":
@@ -540,6 +576,9 @@ def _new_result(Result, name, spec_type, acc, choice_num, obs, use_create):
         else:
             r.update(v)
     return r
+
+
+_NP_OBS = [False]      # set per case by check()
 
 
 def _plan_shape(order, k):
@@ -660,9 +699,13 @@ def _check_result_part(case, ctx):
 # ----------------------------------------------------------------------------
 # part: sets
 # ----------------------------------------------------------------------------
-def _make_set(SimulationResults, Result, specs, rep):
+def _make_set(SimulationResults, Result, specs, rep, reverse=False):
     s = SimulationResults()
-    for spec, (v, t) in zip(specs, rep):
+    pairs = list(zip(specs, rep))
+    if reverse:
+        # the same results, added to the set in another order
+        pairs = pairs[::-1]
+    for spec, (v, t) in pairs:
         s.add_result(_new_result(Result, spec["name"], spec["type"],
                                  bool(spec["acc"]), spec["choice_num"],
                                  [[v, t]], True))
@@ -712,8 +755,10 @@ def _check_sets_part(case, ctx):
         sets, ranges, pos = [], [], 0
         for ci, sz in enumerate(sizes):
             chunk = reps[pos:pos + sz]
-            rep_sets = [_make_set(SimulationResults, Result, specs, r)
-                        for r in chunk]
+            rep_sets = [_make_set(SimulationResults, Result, specs, r,
+                                  reverse=bool(case.get("name_order_varies"))
+                                  and (pos + q) % 2 == 1)
+                        for q, r in enumerate(chunk)]
             via_empty = bool(var["from_empty"][ci])
             if via_empty:
                 ctx.label("sets:receiver_empty" + ("_then_merge" if sz >= 2
@@ -766,12 +811,27 @@ def _check_sets_part(case, ctx):
 
     # append the per-variation sets (what the runner does per variation)
     allres = SimulationResults()
+    grouped = bool(case.get("append_grouped")) and nvar >= 2
+    if case.get("name_order_varies"):
+        ctx.label("sets:name_order_varies")
+    if grouped:
+        # two appended sets (several results per name each) appended again
+        ctx.label("sets:append_of_appended_sets")
+        halves = [SimulationResults(), SimulationResults()]
     for vi, f in enumerate(finals):
         before = _snap_set(f)
-        allres.append_all_results(f)
+        target = halves[0 if vi < nvar // 2 else 1] if grouped else allres
+        target.append_all_results(f)
         if _snap_set(f) != before:
             pending.append(("append_operand_mutated", "variation %d" % vi,
                             tags))
+    if grouped:
+        for h in halves:
+            before = _snap_set(h)
+            allres.append_all_results(h)
+            if _snap_set(h) != before:
+                pending.append(("append_operand_mutated", "appended half",
+                                tags))
     for vi, var in enumerate(case["variations"]):
         _check_set(ctx, allres, specs, var["reps"], "appended[%d]" % vi, tags,
                    index=vi, nvalues=nvar)
@@ -839,8 +899,12 @@ def _build_side(SimulationParameters, SimulationResults, Result, case, which,
     s.set_parameters(p)
     _, combos = _grid(case["unpacked"], which)
     assert len(combos) == len(obs)
+    order = list(enumerate(specs))
+    if which != "a" and case.get("name_order_varies"):
+        # the other sets hold the same results, added in another order
+        order.reverse()
     for reps in obs:
-        for j, sp in enumerate(specs):
+        for j, sp in order:
             acc = bool(sp["acc"])
             if case.get("acc_sides"):
                 acc = bool(case["acc_sides"]["abc".index(which)])
@@ -996,12 +1060,23 @@ def _check_skipcount_part(case, ctx):
                                      if n_with == len(objs) else "some"))
     ctx.nontrivial(0 < n_with < len(objs) and len(objs) >= 3)
     step = 0
+    merged_in = []
     while len(objs) > 1:
         i = case["order"][step] % (len(objs) - 1)
         step += 1
-        objs[i].merge_all_results(objs[i + 1])
+        operand = objs[i + 1]
+        before = _snap_set(operand)
+        objs[i].merge_all_results(operand)
+        merged_in.append((operand, before, ranges[i + 1]))
         ranges[i] = (ranges[i][0], ranges[i + 1][1])
         del objs[i + 1], ranges[i + 1]
+        # merging never mutates the merged-in operands, now or later
+        for op_set, snap, rng in merged_in:
+            if _snap_set(op_set) != snap:
+                raise Violation("skipcount_operand_mutated", "the set of "
+                                "repetitions %d..%d, merged in earlier, was "
+                                "changed by merge step %d" %
+                                (rng[0], rng[1] - 1, step), tags)
         a, b = ranges[i]
         part_sets = case["sets"][a:b]
         want_x = sum(d["x"] for d in part_sets)
@@ -1026,6 +1101,9 @@ def _check_skipcount_part(case, ctx):
 
 def check(case, ctx):
     part = case["part"]
+    _NP_OBS[0] = bool(case.get("np_obs"))
+    if _NP_OBS[0]:
+        ctx.label("observations_as_numpy_scalars")
     if part == "skipcount":
         return _check_skipcount_part(case, ctx)
     if part == "result":
